@@ -249,6 +249,151 @@ example : (match importRepaired (0 : Nat) (fun v => some (v : Int)) wcfg
     | .ok d => d.wf 256 && d.rows.length == 2
     | _ => false) = true := by decide
 
+/-- **The repaired logic only differs where the current one misbehaves.**  On files whose
+records have strictly increasing indices, that are not empty classification files and
+are one-based, the repaired importer returns exactly what the importer in `/repo`
+returns.  (The driver predicts with `importRepaired`; this theorem is why that is a
+test of the current code on all such inputs.) -/
+theorem repaired_eq_current (zero : V) (labelInt : V → Option Int) (cfg : Cfg) (recs : List (Rec V))
+    (hs : recs.all recSorted = true) (hne : cfg.cls = false ∨ recs ≠ [])
+    (hz : hasZeroFirst recs = false) :
+    importRepaired zero labelInt cfg recs = importCurrent zero labelInt cfg recs := by
+  unfold importRepaired importCurrent
+  have hemp : (cfg.cls && recs.isEmpty) = false := by
+    rcases hne with h | h
+    · simp [h]
+    · cases recs with
+      | nil => exact absurd rfl h
+      | cons a t => simp
+  simp only [hs, Bool.not_true, Bool.false_eq_true, if_false, hemp, hz]
+  split
+  · rfl
+  · split
+    · rfl
+    · unfold build
+      simp [vecSize]
+
+/-- for zero-based files the two differ in the reported `shape()` only (finding F2c) -/
+theorem repaired_eq_current_zero_based_witness :
+    importCurrent (0 : Nat) (fun v => some (v : Int)) wcfg [⟨1, [(0, 1), (2, 1)]⟩, ⟨0, [(1, 1)]⟩]
+      = .ok { shape := some 2, lshape := some 2, batches := [2],
+              rows := [.dense [1, 0, 1], .dense [0, 1, 0]], labels := .cls [1, 0] } ∧
+    importRepaired (0 : Nat) (fun v => some (v : Int)) wcfg [⟨1, [(0, 1), (2, 1)]⟩, ⟨0, [(1, 1)]⟩]
+      = .ok { shape := some 3, lshape := some 2, batches := [2],
+              rows := [.dense [1, 0, 1], .dense [0, 1, 0]], labels := .cls [1, 0] } := by
+  constructor <;> decide
+
+/-! ## CSV importers: the result is an error or a well-formed dataset -/
+
+/-- the batch part of `DataSet.wf` for `optimalBatchSizes` -/
+theorem csv_batches_ok {n maxB : Nat} (hn : 0 < n) (hm : 0 < maxB) :
+    ((optimalBatchSizes n maxB).foldl (· + ·) 0 == n) = true ∧
+    (maxB == 0 || (optimalBatchSizes n maxB).all (fun b => decide (b ≤ maxB))) = true := by
+  refine ⟨by simp [optimalBatchSizes_sum hn hm], ?_⟩
+  simp only [Bool.or_eq_true, List.all_eq_true, decide_eq_true_eq]
+  exact Or.inr (optimalBatchSizes_le hn hm)
+
+/-- **C19, `csvStringToData(Data<RealVector>&, …)`**: for every list of parsed rows and every
+maximum batch size ≥ 1 the result is the exception or a well-formed dataset with one element
+per row, all of the dimension of the first row, in batches of at most `maxB` elements. -/
+theorem import_wellformed_or_error_csv_rows (rows : List (List V)) (maxB : Nat) (hm : 0 < maxB) :
+    match Csv.importRows rows maxB with
+    | .ok d => d.wf maxB = true ∧ d.rows.length = rows.length
+    | .error => True
+    | _ => False := by
+  unfold Csv.importRows
+  cases rows with
+  | nil => simp [Csv.emptySet, DataSet.wf]
+  | cons r0 t =>
+    simp only
+    by_cases hall : ((r0 :: t).all fun r => r.length == r0.length) = true
+    · rw [if_pos hall]
+      have hb := csv_batches_ok (n := (r0 :: t).length) (maxB := maxB) (by simp) hm
+      refine ⟨?_, by simp⟩
+      simp only [DataSet.wf, Bool.and_eq_true, List.all_eq_true]
+      refine ⟨⟨⟨?_, by simpa using hb.1⟩, trivial⟩, hb.2⟩
+      intro r hr
+      obtain ⟨xs, hxs, rfl⟩ := List.mem_map.mp hr
+      have := List.all_eq_true.mp hall xs hxs
+      simp only [beq_iff_eq] at this
+      simp [Row.dim, Row.wf, this]
+    · rw [if_neg hall]; trivial
+
+/-- **C19, `csvStringToData(LabeledData<RealVector, unsigned int>&, …)`**: exception, or a
+well-formed dataset whose labels are all below `numberOfClasses`. -/
+theorem import_wellformed_or_error_csv_class (pts : List (Int × List V)) (maxB : Nat) (hm : 0 < maxB) :
+    match Csv.importClass pts maxB with
+    | .ok d => d.wf maxB = true ∧ d.rows.length = pts.length ∧
+        (match d.labels with
+         | .cls ls => ∀ l ∈ ls, l < numberOfClasses ls
+         | _ => False)
+    | .error => True
+    | _ => False := by
+  unfold Csv.importClass
+  cases pts with
+  | nil => simp [Csv.emptySet, DataSet.wf]
+  | cons p0 t =>
+    simp only
+    cases hl : classLabels ((p0 :: t).map fun p => some p.1) with
+    | none => trivial
+    | some labels =>
+      simp only
+      by_cases hall : ((p0 :: t).all fun p => p.2.length == p0.2.length) = true
+      · rw [if_pos hall]
+        have hb := csv_batches_ok (n := (p0 :: t).length) (maxB := maxB) (by simp) hm
+        have hlen := classLabels_length hl
+        refine ⟨?_, by simp, fun l hl' => numberOfClasses_gt labels l hl'⟩
+        simp only [DataSet.wf, Bool.and_eq_true, List.all_eq_true]
+        refine ⟨⟨⟨?_, by simpa using hb.1⟩, by simpa using hlen⟩, hb.2⟩
+        intro r hr
+        obtain ⟨p, hp, rfl⟩ := List.mem_map.mp hr
+        have := List.all_eq_true.mp hall p hp
+        simp only [beq_iff_eq] at this
+        simp [Row.dim, Row.wf, this]
+      · rw [if_neg hall]; trivial
+
+/-- **C19, `csvStringToData(LabeledData<RealVector, RealVector>&, …, lp, numberOfOutputs, …)`**:
+exception, or a well-formed dataset with `numberOfOutputs`-dimensional labels. -/
+theorem import_wellformed_or_error_csv_regr (rows : List (List V)) (labelFirst : Bool) (numOut maxB : Nat)
+    (hm : 0 < maxB) :
+    match Csv.importRegr rows labelFirst numOut maxB with
+    | .ok d => d.wf maxB = true ∧ d.rows.length = rows.length
+    | .error => True
+    | _ => False := by
+  unfold Csv.importRegr
+  cases rows with
+  | nil => simp [Csv.emptySet, DataSet.wf]
+  | cons r0 t =>
+    simp only
+    by_cases hgt : r0.length > numOut
+    · rw [if_neg (by simpa using hgt)]
+      by_cases hall : ((r0 :: t).all fun r => r.length == r0.length) = true
+      · rw [if_pos hall]
+        have hb := csv_batches_ok (n := (r0 :: t).length) (maxB := maxB) (by simp) hm
+        refine ⟨?_, by simp⟩
+        simp only [DataSet.wf, Bool.and_eq_true, List.all_eq_true]
+        refine ⟨⟨⟨?_, by simpa using hb.1⟩, ⟨by simp, ?_⟩⟩, hb.2⟩
+        · intro r hr
+          obtain ⟨xs, hxs, rfl⟩ := List.mem_map.mp hr
+          have := List.all_eq_true.mp hall xs hxs
+          simp only [beq_iff_eq] at this
+          simp only [Row.dim, Row.wf, Bool.and_true, beq_iff_eq, Option.some.injEq, List.length_take,
+            List.length_drop, this]
+          cases labelFirst <;> simp <;> omega
+        · intro l hl
+          obtain ⟨xs, hxs, rfl⟩ := List.mem_map.mp hl
+          have := List.all_eq_true.mp hall xs hxs
+          simp only [beq_iff_eq] at this
+          simp only [beq_iff_eq, Option.some.injEq, List.length_take, List.length_drop, this]
+          cases labelFirst <;> simp <;> omega
+      · rw [if_neg hall]; trivial
+    · rw [if_pos (by simpa using hgt)]; trivial
+
+/-- non-vacuity: a 3-row file in batches of at most 2 -/
+example : (match Csv.importRows [[1, 2], [3, 4], [5, 6]] 2 with
+    | .ok (d : DataSet Nat) => d.wf 2 && d.batches == [2, 1]
+    | _ => false) = true := by decide
+
 /-! ### witnesses: what the current code does without the hypothesis (DESIGN §7 F2) -/
 
 /-- `"1 3:1 1:1\n"`: dimension 1 is taken from the last index, index 3 is written at 2 -/
